@@ -63,32 +63,48 @@ func runC07(c *Ctx) {
 		// includeSiblings := msg.Strategy == supervisor.OneForAllStrategy
 		info := hp.Info()
 		okSib := false
+		resolve := func(e ast.Expr) ast.Expr {
+			e = ast.Unparen(e)
+			if id, ok := e.(*ast.Ident); ok {
+				if def := singleLocalDefIn(info, hp.Decl.Body, info.ObjectOf(id)); def != nil {
+					return ast.Unparen(def)
+				}
+			}
+			return e
+		}
+		nSibCalls := 0
+		okAll := true
 		ast.Inspect(hp.Decl.Body, func(n ast.Node) bool {
-			as, ok := n.(*ast.AssignStmt)
-			if !ok || len(as.Lhs) != 1 || len(as.Rhs) != 1 {
+			call, ok := n.(*ast.CallExpr)
+			if !ok {
 				return true
 			}
-			id, ok := as.Lhs[0].(*ast.Ident)
-			if !ok || id.Name != "includeSiblings" {
+			cal := callee(info, call)
+			if cal == nil || (cal != c.FuncObj("actor", "PID.handleStopDirective") && cal != c.FuncObj("actor", "PID.handleRestartDirective")) || len(call.Args) == 0 {
 				return true
 			}
-			be, ok := as.Rhs[0].(*ast.BinaryExpr)
-			if ok && be.Op == token.EQL {
+			nSibCalls++
+			good := false
+			if be, ok := resolve(call.Args[len(call.Args)-1]).(*ast.BinaryExpr); ok && be.Op == token.EQL {
 				if k, ok := objOfConst(info, be.Y); ok && k.Name() == "OneForAllStrategy" {
 					if f := selField(info, be.X); f != nil && f.Name() == "Strategy" {
-						okSib = true
+						good = true
 					}
 				}
 			}
+			if !good {
+				okAll = false
+			}
 			return true
 		})
+		okSib = okAll && nSibCalls >= 2
 		c.Check(okSib, "siblings-iff-one-for-all", "siblings are included exactly when the configured strategy is one-for-all", c.P.Pos(hp.Decl.Pos()), "includeSiblings is not 'msg.Strategy == OneForAllStrategy'")
 		// the directive switched on is the message's directive, the supervisor passed on is the message's
 		okDir := false
 		ast.Inspect(hp.Decl.Body, func(n ast.Node) bool {
-			if as, ok := n.(*ast.AssignStmt); ok && len(as.Lhs) == 1 && len(as.Rhs) == 1 {
-				if id, ok := as.Lhs[0].(*ast.Ident); ok && id.Name == "directive" {
-					if f := selField(info, as.Rhs[0]); f != nil && f.Name() == "Directive" {
+			if sw, ok := n.(*ast.SwitchStmt); ok && sw.Tag != nil {
+				if t := info.TypeOf(sw.Tag); t != nil && namedOf(t) != nil && namedOf(t).Obj().Name() == "Directive" {
+					if f := selField(info, resolve(sw.Tag)); f != nil && f.Name() == "Directive" {
 						okDir = true
 					}
 				}
@@ -263,7 +279,8 @@ func runC07(c *Ctx) {
 		// siblings appended only under includeSiblings
 		f := c.NewFlow(sd)
 		sib := f.CallTo(c.FuncObj("actor", "tree.siblings"))
-		inc := f.CondEdges(func(e ast.Expr) bool { id, ok := e.(*ast.Ident); return ok && id.Name == "includeSiblings" }, true)
+		sdParams := sd.Obj.Type().(*types.Signature).Params()
+		inc := f.CondEdges(func(e ast.Expr) bool { return sdParams.Len() > 0 && objOf(f.Info, e) == types.Object(sdParams.At(sdParams.Len()-1)) }, true)
 		w := f.search(searchSpec{avoidEdges: inc, target: sib})
 		c.Check(w == nil && len(inc) > 0, "siblings-only-if-included", "siblings are stopped only under the one-for-all strategy", c.P.Pos(sd.Decl.Pos()), f.describe(w))
 	})
